@@ -1264,3 +1264,6 @@ impl LanguageHooks for AnmHooks07 {
 
     fn instr_format(&self) -> &dyn InstrFormat { &*self.instr_format }
 }
+
+#[cfg(truth_verif)]
+pub fn verif_language_hooks(game: Game) -> Box<dyn LanguageHooks> { game_hooks(game) }
